@@ -240,13 +240,23 @@ func genExchange(r *hx.RNG, o genOpt, closeOK bool) *exch {
 	resClose := closeOK && r.Chance(1, 3)
 	switch {
 	case e.Method == "HEAD":
+		// what the origin says about the representation in answer to HEAD: a
+		// length (not necessarily the GET body's), chunked, or nothing
 		e.RsF = "n"
-		if r.Bool() {
-			e.SHdrs = insertAt(r, e.SHdrs, p1x.Hdr{Name: "Content-Length", Value: fmt.Sprint(r.Intn(100000))})
+		switch r.Intn(12) {
+		case 0, 1, 2, 3, 4, 5:
+			e.SHdrs = insertAt(r, e.SHdrs, p1x.Hdr{Name: pick(r, "Content-Length", "content-length"), Value: fmt.Sprint(r.Intn(100000))})
+		case 6: // known finding C01-K5
+			if !e.SV10 {
+				e.SHdrs = insertAt(r, e.SHdrs, p1x.Hdr{Name: "Transfer-Encoding", Value: "chunked"})
+			}
 		}
 	case r.Chance(1, 8):
 		e.RsF = "n"
 		e.Status = []int{204, 304}[r.Intn(2)]
+		if e.Status == 304 && r.Chance(1, 6) { // known finding C01-K3: the length of a 304 is dropped
+			e.SHdrs = insertAt(r, e.SHdrs, p1x.Hdr{Name: "Content-Length", Value: fmt.Sprint(r.Intn(100000))})
+		}
 	default:
 		e.SBLen = genSize(r, o.thorough)
 		switch k := r.Intn(10); {
@@ -563,7 +573,7 @@ func generate(cfg *hx.Config) []hx.Case {
 func stripConn(hs []p1x.Hdr) []p1x.Hdr {
 	var o []p1x.Hdr
 	for _, h := range hs {
-		if strings.EqualFold(h.Name, "Connection") || strings.EqualFold(h.Name, "Content-Encoding") || strings.EqualFold(h.Name, "Content-Length") {
+		if strings.EqualFold(h.Name, "Connection") || strings.EqualFold(h.Name, "Content-Encoding") || strings.EqualFold(h.Name, "Content-Length") || strings.EqualFold(h.Name, "Transfer-Encoding") {
 			continue
 		}
 		o = append(o, h)
@@ -637,14 +647,26 @@ func corpus() []hx.Case {
 	// bodiless responses followed by another exchange on the same connection
 	head := get("/h", ae, 200, H("Content-Length", "12345", "ETag", "\"x\""), 0, "n")
 	head.Method = "HEAD"
-	add("head-204-304-then-get", "pipe", head, get("/204", ae, 204, H("X-A", "1"), 0, "n"), get("/304", ae, 304, H("ETag", "\"y\"", "Content-Length", "99"), 0, "n"), get("/g", ae, 200, nil, 7, "c"))
+	add("head-204-304-then-get", "pipe", head, get("/204", ae, 204, H("X-A", "1"), 0, "n"), get("/304", ae, 304, H("ETag", "\"y\""), 0, "n"), get("/g", ae, 200, nil, 7, "c"))
 
+	// HEAD: the origin states a length / chunked / nothing; a 304 that states a length (C01-K3)
+	hd := func(shs []p1x.Hdr) *exch {
+		e := get("/hd", ae, 200, shs, 0, "n")
+		e.Method = "HEAD"
+		return e
+	}
+	add("head-length-none-zero", "seq", hd(H("Content-Length", "6000")), hd(nil), hd(H("content-length", "0")), get("/g", ae, 200, nil, 7, "c"))
+	add("head-answered-chunked", "seq", hd(H("Transfer-Encoding", "chunked")), get("/g", ae, 200, nil, 7, "c"))
+	add("not-modified-with-content-length", "seq", get("/304", ae, 304, H("Content-Length", "99", "ETag", "\"z\""), 0, "n"), get("/g", ae, 200, nil, 7, "c"))
 	// bodies around the 4 KiB buffer and a large chunked upload
 	post := func(n int, f string) *exch {
 		e := get("/p", append(H("Content-Type", "application/octet-stream"), ae...), 201, H("Location", "/p/1"), 4097, "k3")
 		e.Method, e.BLen, e.RqF = "POST", n, f
 		return e
 	}
+	p204 := post(10, "c")
+	p204.Status, p204.RsF, p204.SBLen, p204.SHdrs = 204, "n", 0, nil
+	add("no-content-answer-to-post", "seq", p204, get("/g", ae, 200, nil, 7, "c"))
 	add("post-4095-4096-4097", "seq", post(4095, "c"), post(4096, "k9"), post(4097, "c"))
 	add("post-1MiB-chunked-then-get", "seq", post(1<<20, "k77"), get("/after", ae, 200, nil, 65537, "k4"))
 	add("post-pipelined-bodies", "pipe", post(70000, "c"), post(4097, "k5"), post(0, "c"), get("/after", ae, 200, nil, 1, "c"))
